@@ -271,6 +271,23 @@ PROPS = {
         "require": {"pairs": 1000000, "paths.success": 300000, "paths.failed": 1000, "long.cases": 50, "origins.ball": 300},
         "assumptions": ["geometric adjacency is the neighbour relation of the statement (validated by C08)"],
     },
+    "C17": {
+        "sources": KIT + ["vf_poly.c", "mon_C17.c"],
+        "phases": [{"name": "main", "config": "asan-alloc", "aux": "plain-so"}],
+        "level": "fault_enumeration",
+        "level_text": "For each input the call runs once unfaulted (allocation count N recorded, ledger must be empty on return, results compared with a default-allocator copy of the library in the same process) and then "
+                      "2N more times, failing exactly the i-th allocation and failing the i-th and every later one, for every i <= N (cap 400): the call must return E_MEMORY_ALLOC, leave no live block and free nothing twice. "
+                      "Inputs: compactions with 1-5 rounds (+duplicate / reserved-bit error paths), gridDisk/gridDiskDistances and areNeighborCells over the 2-disks of all pentagons at all resolutions (fallback "
+                      "allocations) and random cells, legacy and experimental polygon fills (0-3 holes, four modes, bad flags, too-small capacity) incl. polygons around pentagons, maxPolygonToCellsSizeExperimental. ASan+UBSan.",
+        "level_note": "Complete over allocation indexes of every executed call; the inputs are sampled. The ledger interposes through the library's own H3_ALLOC_PREFIX mechanism; allocations inside libc are not faulted.",
+        "technique": "runtime fault injection: allocator ledger with exhaustive failure-index enumeration per call, differential run against the default allocator, under ASan/UBSan",
+        "evaluations": ["calls", "faulted_runs"],
+        "rule": "a case is one (call, failing allocation index, single|all-later) execution plus the unfaulted execution of each call. Non-trivial = a faulted run in which the injected failure was actually reached; "
+                "distinct by hash of (call description, index, mode).",
+        "require": {"calls": 1000, "faulted_runs": 1500, "calls.compactCells": 50, "calls.gridDisk": 100, "calls.gridDiskDistances": 100, "calls.areNeighborCells": 300, "calls.polygonToCells": 50,
+                    "calls.polygonToCellsExperimental": 100, "calls.maxPolygonToCellsSizeExperimental": 100, "errorpath.compactCells": 5, "errorpath.polygonToCellsExperimental": 5},
+        "assumptions": ["every library allocation goes through H3_MEMORY (the prefix mechanism)", "the default-allocator copy is the same source tree compiled without the prefix"],
+    },
     "C19": {
         "sources": KIT + ["mon_C19.c"],
         "phases": simple("mon_C19.c"),
